@@ -437,7 +437,7 @@ func c01Child(r *ev.Run, batch int) {
 		c01DeferredErrorCase(r, batch, "monitor_cond")
 		c01DeferredErrorCase(r, batch, "monitor_cond_since")
 	}
-	cases := r.N(25, 160)
+	cases := r.N(25, 480)
 	for ci := 0; ci < cases; ci++ {
 		p := prng.Derive(r.Seed, "C01", batch, ci)
 		r.LogCase(fmt.Sprintf("C01 batch=%d case=%d", batch, ci))
